@@ -242,6 +242,68 @@ fn deep(rng: &mut Rng, depth: usize) -> Vec<u8> {
     s.into_bytes()
 }
 
+/// `xsgh parse-plain f1 f2 ..`: parse / extend the files and render, on a thread with the 8 MiB stack
+/// of an ordinary main thread (the harness itself works on 256 MiB): prints `ok` or `err`
+pub fn parse_plain(files: &[String]) {
+    let bytes: Vec<Vec<u8>> = files.iter().map(|f| std::fs::read(f).unwrap()).collect();
+    let h = std::thread::Builder::new()
+        .stack_size(8 << 20)
+        .spawn(move || {
+            let mut tab = ErrTab::default();
+            match run_impl(&bytes, &RCfg::default(), &mut tab) {
+                ImplResult::Tree(_, e) => {
+                    let _ = render(&e, &Opts::quick_xml());
+                    "ok"
+                }
+                ImplResult::Other(_) => "other",
+                _ => "err",
+            }
+        })
+        .unwrap();
+    match h.join() {
+        Ok(r) => println!("{}", r),
+        Err(_) => println!("panic"),
+    }
+}
+/// well-formed documents whose size lies in a dimension that costs the library nothing per item
+/// unless something recurses or accumulates per item: run in a fresh process on an ordinary stack
+fn plain_stack_cases(ctx: &mut Ctx, hist: &mut Hist, fails: &mut Vec<J>) {
+    let n = if ctx.thorough { 200_000 } else { 40_000 };
+    let rep = |unit: &str, k: usize| -> String { unit.repeat(k) };
+    let cases: Vec<(&str, String, &str)> = vec![
+        ("consecutive-comments", format!("{}<a k=\"1\"/>", rep("<!--c-->", n)), "ok"),
+        ("consecutive-processing-instructions", format!("<a>{}<b/></a>", rep("<?p d?>", n)), "ok"),
+        ("consecutive-comments-and-text", format!("<a>{}</a>", rep("<!--c-->t", n)), "ok"),
+        ("consecutive-cdata", format!("<a>{}</a>", rep("<![CDATA[c]]>", n)), "ok"),
+        ("consecutive-empty-siblings", format!("<a>{}</a>", rep("<b/>", n)), "ok"),
+        ("consecutive-sibling-pairs", format!("<a>{}</a>", rep("<b></b><c/>", n / 2)), "ok"),
+        ("nesting-200", format!("{}{}", rep("<a>", 200), rep("</a>", 200)), "ok"),
+        ("doctype-then-comments", format!("<!DOCTYPE a [<!ENTITY e \"v\">]>{}<a/>", rep("<!-- x -->\n", n)), "ok"),
+    ];
+    let dir = ctx.out.join("plain");
+    std::fs::create_dir_all(&dir).ok();
+    let exe = std::env::current_exe().unwrap();
+    for (name, doc, want) in cases {
+        let p = dir.join(format!("{}.xml", name));
+        std::fs::write(&p, doc.as_bytes()).unwrap();
+        hist.add(&format!("plain-stack:{}", name));
+        match std::process::Command::new(&exe).arg("parse-plain").arg(&p).output() {
+            Ok(o) => {
+                let got = String::from_utf8_lossy(&o.stdout).trim().to_string();
+                if o.status.code() != Some(0) || got != want {
+                    fails.push(json::obj(vec![
+                        ("check", json::s("plain-stack")),
+                        ("what", json::s(format!("a well-formed document ({}: {} items, {} bytes) parsed in a fresh process on an 8 MiB stack: exit status {:?}, output {:?}, stderr {:?}; expected exit 0 and `{}` (a stack overflow aborts the process)", name, n, doc.len(), o.status.code(), got, String::from_utf8_lossy(&o.stderr).chars().take(200).collect::<String>(), want))),
+                        ("documents", J::A(vec![json::s(format!("{} ({} items; first 60 bytes: {})", name, n, &doc[..60.min(doc.len())]))])),
+                    ]));
+                }
+            }
+            Err(e) => fails.push(json::obj(vec![("check", json::s("plain-stack")), ("what", json::s(format!("cannot start the child process: {}", e)))])),
+        }
+        let _ = std::fs::remove_file(&p);
+    }
+}
+
 pub fn run(ctx: &mut Ctx, c07: bool) {
     let evals = if c07 {
         vec![
@@ -261,6 +323,7 @@ pub fn run(ctx: &mut Ctx, c07: bool) {
     let mut evaluations = 0i64;
     let mut rng = ctx.rng.fork();
     let mut fails: Vec<J> = vec![];
+    plain_stack_cases(ctx, &mut hist, &mut fails);
     let pools = crate::docprops::name_pools();
     let n = if ctx.thorough { if c07 { 150000 } else { 120000 } } else if c07 { 6000 } else { 6000 };
 
